@@ -76,6 +76,9 @@ func Assert(b bool, label string) {
 
 func Cover(label string) {}
 
+// Exit marks the end of the process (used by the symbolic stubs of log.Fatal / os.Exit).
+func Exit() { panic(assumeFailed{}) }
+
 // LenAny / SwapAny are used only by the symbolic stubs of package sort.
 func LenAny(x any) int { return reflect.ValueOf(x).Len() }
 func SwapAny(x any, i, j int) {
